@@ -513,6 +513,8 @@ package builtInFunctions
 //@   ensures[C08] err == nil && !readFailed && senderSide && shardOf(a3) == selfShard && len(old(St)[a3][Knft(tok, dMNonce(old0))]) != 0 && dHasMeta(old(St)[a3][Knft(tok, dMNonce(old0))]) ==> dMHash(old(St)[a3][Knft(tok, dMNonce(old0))]) == dMHash(old0)
 //@   ensures[C08] err == nil && !readFailed && !senderSide && val(old(St), rcv, Knft(tok, dMNonce(a3))) + dVal(a3) > 0 ==> sameMeta(St[rcv][Knft(tok, dMNonce(a3))], a3)
 //@   ensures[C08] err == nil && !readFailed && !senderSide && len(old(St)[rcv][Knft(tok, dMNonce(a3))]) != 0 && dHasMeta(old(St)[rcv][Knft(tok, dMNonce(a3))]) ==> dMHash(old(St)[rcv][Knft(tok, dMNonce(a3))]) == dMHash(a3)
+//@   ensures[C10,C01] err == nil && senderSide && shardOf(a3) != selfShard ==> has(out.OutputAccounts, a3) && wfunc(seq(out.OutputAccounts[a3].OutputTransfers[0].Data)) == "ESDTNFTTransfer" && wcount(seq(out.OutputAccounts[a3].OutputTransfers[0].Data)) == len(vmInput.Arguments) && warg(seq(out.OutputAccounts[a3].OutputTransfers[0].Data), 0) == tok && warg(seq(out.OutputAccounts[a3].OutputTransfers[0].Data), 1) == seq(vmInput.Arguments[1]) && warg(seq(out.OutputAccounts[a3].OutputTransfers[0].Data), 2) == seq(vmInput.Arguments[2])
+//@   ensures[C10,C01,C08] err == nil && !readFailed && senderSide && shardOf(a3) != selfShard ==> !dValNil(warg(seq(out.OutputAccounts[a3].OutputTransfers[0].Data), 3)) && dVal(warg(seq(out.OutputAccounts[a3].OutputTransfers[0].Data), 3)) == q && sameMeta(warg(seq(out.OutputAccounts[a3].OutputTransfers[0].Data), 3), old0)
 //@   ensures[C04] err == nil && !readFailed && !vmInput.ReturnCallAfterError && senderSide && snd != ESDTSC() ==> !frozen(old(St), snd, Knft(tok, n)) && !paused(old(St), Kesdt(tok))
 //@   ensures[C04] err == nil && !readFailed && !vmInput.ReturnCallAfterError && !senderSide && rcv != ESDTSC() ==> !frozen(old(St), rcv, Knft(tok, dMNonce(a3))) && !paused(old(St), Kesdt(tok)) && !paused(old(St), Knft(tok, dMNonce(a3)))
 //@   ensures[C15] err == nil ==> WFvalues(St)
@@ -557,7 +559,7 @@ package builtInFunctions
 //@   requires WFvalues(St)
 //@   ensures[C17] err == nil ==> failed == old(failed)
 //@   ensures old(readFailed) ==> readFailed
-//@   ensures err == nil ==> r != nil && r.Value != nil && fresh(r) && (nonce != 0 ==> r.TokenMetaData != nil)
+//@   ensures err == nil ==> r != nil && r.Value != nil && fresh(r) && (nonce != 0 ==> r.TokenMetaData != nil) && wfItem(r)
 //@   ensures[C01] err == nil && isNil(acntDst) ==> bigval(r.Value) == q
 //@   ensures[C09] err == nil && !isNil(acntDst) && verifyPayable ==> payable(dstA)
 //@   ensures[C01,C02] err == nil && !readFailed ==> q > 0 && len(old0) != 0 && val(old(St), snd, Ks) >= q
@@ -573,15 +575,26 @@ package builtInFunctions
 
 //@ func (e *esdtNFTMultiTransfer) createESDTNFTOutputTransfers
 //@   view dstA = seq(dstAddress)
+//@   view nL = len(listESDTTransferData)
 //@   requires lockHeld(e, ".mutExecution")
 //@   requires e != nil && !isNil(e.marshalizer) && !isNil(e.shardCoordinator) && vmInput != nil && vmOutput != nil
 //@   requires len(listTokenIDs) == len(listESDTTransferData) && len(listESDTTransferData) < 1048576 && costBound(e.gasConfig.DataCopyPerByte)
-//@   requires forall(j, int, 0 <= j && j < len(listESDTTransferData) ==> listESDTTransferData[j] != nil && listESDTTransferData[j].Value != nil)
+//@   requires forall(j, int, 0 <= j && j < len(listESDTTransferData) ==> wfItem(listESDTTransferData[j]))
 //@   loop 0 invariant vmOutput.GasRemaining <= old(vmOutput.GasRemaining) && failed == old(failed) && vmOutput.OutputAccounts == old(vmOutput.OutputAccounts)
-//@   loop 0 invariant forall(j, int, 0 <= j && j < len(listESDTTransferData) ==> listESDTTransferData[j] != nil && listESDTTransferData[j].Value != nil)
+//@   loop 0 invariant forall(j, int, 0 <= j && j < len(listESDTTransferData) ==> wfItem(listESDTTransferData[j]))
 //@   loop 0 invariant multiTransferCallArgs != nil && fresh(multiTransferCallArgs)
+//@   loop 0 invariant len(multiTransferCallArgs) == 1 + 3 * (rangeindex + 1) && cap(multiTransferCallArgs) >= 3 * nL + 1 && rangeindex + 1 <= nL
+//@   loop 0 invariant seq(multiTransferCallArgs[0]) == be(nL)
+//@   loop 0 invariant forall(j, int, 0 <= j && j <= rangeindex ==> seq(multiTransferCallArgs[1 + 3 * j]) == seq(listTokenIDs[j]))
+//@   loop 0 invariant forall(j, int, 0 <= j && j <= rangeindex && listESDTTransferData[j].TokenMetaData != nil ==> seq(multiTransferCallArgs[2 + 3 * j]) == be(listESDTTransferData[j].TokenMetaData.Nonce) && seq(multiTransferCallArgs[3 + 3 * j]) == tokEnc(listESDTTransferData[j]))
+//@   loop 0 invariant forall(j, int, 0 <= j && j <= rangeindex && listESDTTransferData[j].TokenMetaData == nil ==> seq(multiTransferCallArgs[2 + 3 * j]) == "\x00" && seq(multiTransferCallArgs[3 + 3 * j]) == be(iabs(bigval(listESDTTransferData[j].Value))))
 //@   ensures[C17] err == nil ==> failed == old(failed)
 //@   ensures[C06] err == nil && old(vmOutput.OutputAccounts) == nil ==> onlyRcpt(vmOutput, dstA) && vmOutput.GasRemaining + fwdGas(vmOutput, dstA) <= old(vmOutput.GasRemaining)
+//@   ensures[C10] err == nil && shardOf(dstA) != selfShard ==> has(vmOutput.OutputAccounts, dstA) && wfunc(seq(vmOutput.OutputAccounts[dstA].OutputTransfers[0].Data)) == "MultiESDTNFTTransfer" && warg(seq(vmOutput.OutputAccounts[dstA].OutputTransfers[0].Data), 0) == be(nL)
+//@   ensures[C10] err == nil && shardOf(dstA) != selfShard ==> wcount(seq(vmOutput.OutputAccounts[dstA].OutputTransfers[0].Data)) == 1 + 3 * nL + ite(len(vmInput.Arguments) > 3 * nL + 2, len(vmInput.Arguments) - (3 * nL + 2), 0)
+//@   ensures[C10] err == nil && shardOf(dstA) != selfShard ==> forall(j, int, 0 <= j && j < nL ==> warg(seq(vmOutput.OutputAccounts[dstA].OutputTransfers[0].Data), 1 + 3 * j) == seq(listTokenIDs[j]))
+//@   ensures[C10] err == nil && shardOf(dstA) != selfShard ==> forall(j, int, 0 <= j && j < nL && listESDTTransferData[j].TokenMetaData != nil ==> warg(seq(vmOutput.OutputAccounts[dstA].OutputTransfers[0].Data), 2 + 3 * j) == be(listESDTTransferData[j].TokenMetaData.Nonce) && warg(seq(vmOutput.OutputAccounts[dstA].OutputTransfers[0].Data), 3 + 3 * j) == tokEnc(listESDTTransferData[j]))
+//@   ensures[C10] err == nil && shardOf(dstA) != selfShard ==> forall(j, int, 0 <= j && j < nL && listESDTTransferData[j].TokenMetaData == nil ==> warg(seq(vmOutput.OutputAccounts[dstA].OutputTransfers[0].Data), 2 + 3 * j) == "\x00" && warg(seq(vmOutput.OutputAccounts[dstA].OutputTransfers[0].Data), 3 + 3 * j) == be(iabs(bigval(listESDTTransferData[j].Value))))
 //@   modifies vmOutput.GasRemaining, vmOutput.OutputAccounts, failed, newmap(vmOutput.OutputAccounts), new(vmcommon.OutputAccount), new([]vmcommon.OutputTransfer), new(big.Int), new([][]byte)
 
 //@ func (e *esdtNFTMultiTransfer) processESDTNFTMultiTransferOnSenderShard
@@ -595,7 +608,7 @@ package builtInFunctions
 //@   requires argBounds(vmInput) && costBound(e.funcGasCost) && costBound(e.gasConfig.DataCopyPerByte)
 //@   loop 0 invariant i <= numOfTransfers && WFvalues(St) && failed == old(failed) && (old(readFailed) ==> readFailed)
 //@   loop 0 invariant forall(a, addr, k, bseq, St[a][k] != old(St)[a][k] ==> (a == snd || a == dstA) && isTokKey(k))
-//@   loop 0 invariant forall(j, int, 0 <= j && j < i ==> listEsdtData[j] != nil && allocated(listEsdtData[j]) && listEsdtData[j].Value != nil)
+//@   loop 0 invariant forall(j, int, 0 <= j && j < i ==> wfItem(listEsdtData[j]))
 //@   loop 0 invariant vmOutput.GasRemaining == vmInput.GasProvided - numOfTransfers * e.funcGasCost && vmOutput.OutputAccounts == nil && vmOutput.ReturnCode == 0 && len(vmOutput.Logs) == numOfTransfers
 //@   loop 0 invariant i > 0 && verifyPayable && !isNil(acntDst) ==> payable(dstA)
 //@   ensures[C11] shape(out, err)
